@@ -28,7 +28,7 @@ type c09Case struct {
 	FinalNL     bool     `json:"final_nl"`
 	Frags       []int    `json:"frags"`    // sizes of successive Read results, cycled; 0 = everything that is left
 	ResCap      int      `json:"res_cap"`  // capacity of the result channel
-	Reuse       int      `json:"reuse"`    // 0 nil channel, 1 recycle every value, 2 recycle every other value
+	Reuse       int      `json:"reuse"`    // 0 nil channel, 1 recycle every value, 2 recycle every other value, 3 foreign objects first, then every value
 	Procs       int      `json:"procs"`    // GOMAXPROCS
 	ErrAt       int      `json:"err_at"`   // -1: none; else the reader fails after delivering this many bytes
 	ErrKind     int      `json:"err_kind"` // which error the reader fails with: 0 custom, 1 io.ErrUnexpectedEOF, 2 io.ErrClosedPipe, 3 a wrapped error
@@ -275,6 +275,20 @@ func c09Check(c c09Case) error {
 	if c.Reuse > 0 {
 		reuse = make(chan *simdjson.ParsedJson, 8)
 	}
+	if c.Reuse == 3 {
+		// objects that did not come out of this stream: a zero value, a no-copy parse result (its Message is somebody
+		// else's input buffer), a deserialized tape; afterwards every delivered value is recycled
+		reuse <- &simdjson.ParsedJson{}
+		if p1, err := simdjson.Parse([]byte(`{"foreign":["object","x\n",1.5,{"k":null}],"long":"`+strings.Repeat("f", 300)+`"}`), nil, simdjson.WithCopyStrings(false)); err == nil {
+			reuse <- p1
+		}
+		if p2, err := simdjson.Parse([]byte(`[1,2,3,"four",[5]]`), nil); err == nil {
+			fs := simdjson.NewSerializer()
+			if p3, err := fs.Deserialize(fs.Serialize(nil, *p2), nil); err == nil {
+				reuse <- p3
+			}
+		}
+	}
 	rd := &fragReader{data: data, frags: c.Frags, errAt: c.ErrAt, eofWithData: c.EOFWithData, errKind: c.ErrKind}
 	if c.Reuse > 0 {
 		simdjson.ParseNDStream(rd, res, reuse)
@@ -312,7 +326,7 @@ func c09Check(c c09Case) error {
 			gotAll = append(gotAll, '\n')
 		}
 		gotAll = append(gotAll, cn...)
-		if c.Reuse == 1 || (c.Reuse == 2 && nvals%2 == 0) {
+		if c.Reuse == 1 || c.Reuse == 3 || (c.Reuse == 2 && nvals%2 == 0) {
 			select {
 			case reuse <- v.Value:
 			default:
@@ -476,7 +490,7 @@ func TestC09_Streams(t *testing.T) {
 	runRapid(t, "C09_Streams", nCases(12_000, 250_000), func(t *rapid.T) {
 		lines, crlf := genStreamLines(t, 14)
 		c := c09Case{Lines: lines, CRLF: crlf, FinalNL: rapid.Bool().Draw(t, "finalnl"), Frags: genFrags(t),
-			ResCap: []int{0, 1, 10}[rapid.IntRange(0, 2).Draw(t, "rescap")], Reuse: rapid.IntRange(0, 2).Draw(t, "reuse"),
+			ResCap: []int{0, 1, 10}[rapid.IntRange(0, 2).Draw(t, "rescap")], Reuse: rapid.IntRange(0, 3).Draw(t, "reuse"),
 			Procs: []int{1, 2, 16, 4, 6}[rapid.IntRange(0, 4).Draw(t, "procs")], ErrAt: -1,
 			EOFWithData: rapid.IntRange(0, 3).Draw(t, "eofdata") == 0, ForceOrder: rapid.IntRange(0, 2).Draw(t, "force") == 0,
 			SlowConsume: rapid.IntRange(0, 5).Draw(t, "slow") == 0}
@@ -525,7 +539,7 @@ func TestC09_Permuted(t *testing.T) {
 		}
 		dec := genOrderDec(t, 1)
 		c := c09Case{Lines: lines, CRLF: crlf, FinalNL: rapid.Bool().Draw(t, "finalnl"), Frags: frags,
-			ResCap: []int{0, 1, 10}[rapid.IntRange(0, 2).Draw(t, "rescap")], Reuse: rapid.IntRange(0, 2).Draw(t, "reuse"),
+			ResCap: []int{0, 1, 10}[rapid.IntRange(0, 2).Draw(t, "rescap")], Reuse: rapid.IntRange(0, 3).Draw(t, "reuse"),
 			Procs: []int{2, 4, 6, 16, 16}[rapid.IntRange(0, 4).Draw(t, "procs")], ErrAt: -1, OrderDec: dec,
 			EOFWithData: rapid.IntRange(0, 3).Draw(t, "eofdata") == 0, SlowConsume: rapid.IntRange(0, 7).Draw(t, "slow") == 0}
 		if rapid.IntRange(0, 5).Draw(t, "witherr") == 0 {
@@ -543,7 +557,7 @@ func TestC09_ReaderErrors(t *testing.T) {
 	runRapid(t, "C09_ReaderErrors", nCases(600, 12_000), func(t *rapid.T) {
 		lines, crlf := genStreamLines(t, 6)
 		base := c09Case{Lines: lines, CRLF: crlf, FinalNL: rapid.Bool().Draw(t, "finalnl"), Frags: genFrags(t),
-			ResCap: []int{0, 1, 10}[rapid.IntRange(0, 2).Draw(t, "rescap")], Reuse: rapid.IntRange(0, 2).Draw(t, "reuse"),
+			ResCap: []int{0, 1, 10}[rapid.IntRange(0, 2).Draw(t, "rescap")], Reuse: rapid.IntRange(0, 3).Draw(t, "reuse"),
 			Procs: []int{1, 2, 16, 4, 6}[rapid.IntRange(0, 4).Draw(t, "procs")], ForceOrder: rapid.IntRange(0, 3).Draw(t, "force") == 0}
 		if base.OrderDec = genOrderDec(t, 4); base.OrderDec != nil {
 			base.ForceOrder = false
